@@ -98,13 +98,14 @@ def eval_case(ctx, case):
     from rl4co.tasks.eval import evaluate_policy
 
     name, n, N, bs, method, seed = case["env"], case["n"], case["N"], case["bs"], case["method"], case["s"]
-    env, O, cfg = policies.env_for(name, n)
+    extra = case.get("extra") or {}
+    env, O, cfg = policies.env_for(name, n, **extra)
     pol = policies.make(case.get("policy", "am"), env, seed=seed % 5)
     torch.manual_seed(seed)
     td_all = env.generator(batch_size=[N])
     ds = env.dataset_cls(td_all.clone()) if hasattr(env, "dataset_cls") else None
     insts = [O.extract(td_all, env.reset(td_all.clone()), i, env) for i in range(N)]
-    sig = dict(kind="eval", env=name, method=method)
+    sig = dict(kind="eval", env=name, method=method, **{k: v for k, v in extra.items() if k in ("cost_type", "start_depot", "reward_mode", "problem_mode", "preset")})
     calls = []
     o_forward = pol.forward
 
@@ -169,7 +170,17 @@ def eval_case(ctx, case):
             ref = O.objective(insts[i], acts)
             got = float(rewards[i])
             if abs(got - ref) > tol(ref):
-                ctx.violation(dict(sig, q="reward_vs_actions"), f"instance {i}: reported reward {got} != objective {ref} of the returned actions on the original instance", dict(N=N, bs=bs, actions=acts, inst=insts[i]))
+                # mechanism feature: is the reported number what env.get_reward returns for the RESET state of the instance and these
+                # actions (the evaluators re-score rollouts on the reset state; an env whose reward lives in the rollout state then reports
+                # the value of an unstarted episode)?
+                mech = "other"
+                try:
+                    r0 = float(env.get_reward(env.reset(td_all[i : i + 1].clone()), actions[i : i + 1].clone()).reshape(-1)[0])
+                    if abs(r0 - got) <= tol(got):
+                        mech = "value_of_reset_state"
+                except Exception:
+                    pass
+                ctx.violation(dict(sig, q="reward_vs_actions", mech=mech), f"instance {i}: reported reward {got} != objective {ref} of the returned actions on the original instance", dict(N=N, bs=bs, actions=acts, inst=insts[i]))
                 return
             if v:
                 ctx.violation(dict(sig, q="returned_infeasible", constraint=v[0][0]), f"instance {i}: the returned solution is infeasible on the original instance: {v[0]}", dict(actions=acts, inst=insts[i]))
